@@ -266,6 +266,48 @@ var tests = []test{
 				}
 			}
 		}
+		// reference-typed carriers: Empty() is the given element itself - a nil map / slice / pointer stays nil, a given map is
+		// that map (not a copy), an empty-but-not-nil slice stays non-nil
+		mergeM := func(a, b map[string]int) map[string]int {
+			out := map[string]int{}
+			for k, v := range a {
+				out[k] = v
+			}
+			for k, v := range b {
+				out[k] += v
+			}
+			return out
+		}
+		given := map[string]int{"g": 1}
+		for _, mk := range []func(e map[string]int) monoid.Monoid[map[string]int]{
+			func(e map[string]int) monoid.Monoid[map[string]int] { return monoid.FromOp(e, mergeM) },
+			func(e map[string]int) monoid.Monoid[map[string]int] {
+				return monoid.From[map[string]int](e, semigroup.From[map[string]int](mergeM))
+			},
+		} {
+			r.Evaluations++
+			if e := mk(nil).Empty(); e != nil {
+				viol(r, "monoid/reference-empty", "monoid over map[string]int built with a nil map as its empty element: Empty() returns a non-nil map %v", e)
+			}
+			mg := mk(given)
+			e1 := mg.Empty()
+			e1["probe"] = 7 // the given element is a reference: what Empty() hands out is that very map
+			if given["probe"] != 7 || len(mg.Empty()) != len(given) {
+				viol(r, "monoid/reference-empty", "monoid built with a given map as its empty element: Empty() is not that map (a write through it is not seen in the given map: %v vs %v)", given, e1)
+			}
+			delete(given, "probe")
+		}
+		catB := func(a, b []byte) []byte { return append(append([]byte{}, a...), b...) }
+		if e := monoid.FromOp([]byte(nil), catB).Empty(); e != nil {
+			viol(r, "monoid/reference-empty", "monoid over []byte with a nil empty element: Empty() returns a non-nil slice")
+		}
+		if e := monoid.FromOp([]byte{}, catB).Empty(); e == nil {
+			viol(r, "monoid/reference-empty", "monoid over []byte with an empty, non-nil empty element: Empty() returns nil")
+		}
+		var np *int
+		if e := monoid.FromOp(np, func(a, b *int) *int { return a }).Empty(); e != nil {
+			viol(r, "monoid/reference-empty", "monoid over *int with a nil empty element: Empty() returns a non-nil pointer")
+		}
 		// ContraMap whose source type is an interface (error, fmt.Stringer, any) with nil among the values: the projection is
 		// total on nil, and the result is the base instance on the projected values - nil is not special-cased
 		text := func(e error) string {
